@@ -37,6 +37,8 @@ _tmp = {"dir": None}
 
 def setup_symbolic():
     shims.install([common, lrp], ["min", "max"])
+    from props import genic
+    genic.setup_symbolic()
 
 
 def tmp_prefix(name):
@@ -259,6 +261,14 @@ def instances(tier, seed):
     for li, locus in enumerate(loci):
         out.append(Instance("profile_history[%s]" % locus, h_profile_history(locus, 6), F[:4],
                             "locus %s, two reads with the same span through one constructor, symbolic coordinates" % locus, weight=400, budget_s=1200))
+    # the profiles reach the counters: one BAM record through the real process_genic (shared with C05)
+    from props import genic
+    for locus, tid, n in ([("skip", "T1", 3), ("alt_ends", "T8", 3)] if q else [(l, m[0], len(m[3])) for l in sorted(genic.LOCI) for m in genic.LOCI[l] if len(m[3]) > 1]):
+        out.append(Instance("genic_record[%s,%s]" % (locus, tid), genic.h_genic(locus, tid, 0, n - 1),
+                            ["src.alignment_processor:AlignmentCollector.process_genic", "src.alignment_info:AlignmentInfo.__init__",
+                             "src.alignment_info:AlignmentInfo.construct_profiles", "src.common:get_read_blocks"],
+                            "one BAM record following %s of locus %s (symbolic coordinates, flags, MAPQ) through process_genic" % (tid, locus),
+                            weight=300, budget_s=1200))
     from props import c09
     for n in ((2,) if q else (2, 3)):
         out.append(Instance("two_reads_grouped[%d]" % n, c09.h_profile_groups(n), ["src.long_read_counter:ProfileFeatureCounter.add_read_info_from_profile"],
